@@ -73,6 +73,10 @@ type chainArgs struct {
 	Texts  []string `json:"texts"`
 	Route  string   `json:"route"`   // unmarshal | read | stream
 	AnyLen bool     `json:"any_len"` // UnmarshalArrayFromAnyLength
+	// Mix: option mixes under which the merge semantics must be the documented v2 ones although other legacy
+	// behaviour is switched on: "legacy-errors" = ReportErrorsWithLegacySemantics(true);
+	// "v1-but-v2-merge" = DefaultOptionsV1 + MergeWithLegacySemantics(false); "explicit-v2-merge" = MergeWithLegacySemantics(false)
+	Mix string `json:"mix,omitempty"`
 }
 
 // ---- deep snapshot
@@ -379,6 +383,14 @@ func runChain(w *run.W, a *chainArgs) {
 	if a.AnyLen {
 		opts = append(opts, jsonv1.UnmarshalArrayFromAnyLength(true))
 	}
+	switch a.Mix {
+	case "legacy-errors":
+		opts = append(opts, jsonv1.ReportErrorsWithLegacySemantics(true))
+	case "explicit-v2-merge":
+		opts = append(opts, jsonv1.MergeWithLegacySemantics(false))
+	case "legacy-calls+v2-merge":
+		opts = append(opts, jsonv1.CallMethodsWithLegacySemantics(true), jsonv1.ReportErrorsWithLegacySemantics(true), jsonv1.MergeWithLegacySemantics(false))
+	}
 	p := reflect.New(t)
 	var dec *jsontext.Decoder
 	if a.Route == "stream" {
@@ -574,7 +586,8 @@ func generate(w *run.W) {
 			Leaves:  []string{"int", "string", "bool", "any", "float64", "any", "any", "map[string]any", "[]uint8", "[4]uint8", "uint8"},
 			MapKeys: []string{"string", "string", "string", "int", "SKey", "uint8"}}
 		for i := 0; i < 100; i++ {
-			a := &chainArgs{Type: gen.RandType(r, tc, 0), Route: [...]string{"unmarshal", "unmarshal", "read", "stream"}[r.IntN(4)], AnyLen: r.IntN(4) == 0}
+			a := &chainArgs{Type: gen.RandType(r, tc, 0), Route: [...]string{"unmarshal", "unmarshal", "read", "stream"}[r.IntN(4)], AnyLen: r.IntN(4) == 0,
+				Mix: [...]string{"", "", "", "legacy-errors", "explicit-v2-merge", "legacy-calls+v2-merge"}[r.IntN(6)]}
 			t := gen.MustParseType(a.Type, env)
 			fc := &gen.FitCfg{NullPct: 8, MissingPct: 35, UnknownPct: 15, EscapePct: 5, MaxAny: 3, MaxElems: 3, ShortArray: a.AnyLen, Env: env}
 			for k := 2 + r.IntN(3); k > 0; k-- {
